@@ -13,11 +13,11 @@ try:
     r = subprocess.run(['go', 'build', './...'], cwd=d, env=ENV, capture_output=True, text=True)
     if r.returncode != 0:
         print(src, 'BUILD FAILED', r.stderr[-500:]); sys.exit(2)
-    props = subprocess.run(['/verif/bin/crverif', '-list'], capture_output=True, text=True).stdout.split()
+    props = subprocess.run([os.environ.get('CRVERIF_BIN', '/verif/bin/crverif'), '-list'], capture_output=True, text=True).stdout.split()
     fired = {}
     for p in props:
         ev = tempfile.mkdtemp(prefix='ev-', dir='/tmp')
-        rr = subprocess.run(['/verif/bin/crverif', '-property', p, '-evidence', ev], env=dict(ENV, VERIF_REPO=d), capture_output=True, text=True)
+        rr = subprocess.run([os.environ.get('CRVERIF_BIN', '/verif/bin/crverif'), '-property', p, '-evidence', ev], env=dict(ENV, VERIF_REPO=d), capture_output=True, text=True)
         if rr.returncode != 0:
             lines = [l.strip() for l in (rr.stdout + rr.stderr).splitlines() if 'rule=' in l and 'KNOWN' not in l]
             fired[p] = [l[:420] for l in lines[:4]] or [(rr.stdout + rr.stderr)[-400:]]
